@@ -536,6 +536,11 @@ func quotaHistory(c *Ctx, d *coreDrv) {
 		limA = lim
 	}
 	conf := fmt.Sprintf(quotaConfig, lim, lim+4+c.pick(10), limA)
+	// queue names are case insensitive: now and then the configuration spells the queue with the limit in capitals
+	// (queue objects, placement and the shim's submissions use the lower case path)
+	if c.chance(0.25) {
+		conf = strings.Replace(conf, "          - name: a\n", "          - name: A\n", 1)
+	}
 	d.apply(map[string]interface{}{"op": "reset", "config": conf, "deny": ""})
 	if d.s == nil {
 		return
